@@ -73,10 +73,24 @@ impl Directory {
             create_file(dir_path, file_number)?;
             files
         };
-        Ok(Directory {
+        let directory = Directory {
             dir: dir_path.to_path_buf(),
             files,
-        })
+        };
+        directory.ensure_last_file_has_full_size()?;
+        Ok(directory)
+    }
+
+    /// `create_file` creates a file and only then gives it its size. If the process died
+    /// in between, the last file is short: what gets written to it would be unreadable
+    /// after the next restart (and an empty first file makes opening fail).
+    fn ensure_last_file_has_full_size(&self) -> io::Result<()> {
+        let last_filepath = filepath(&self.dir, self.files.last());
+        if std::fs::metadata(&last_filepath)?.len() < FILE_NUM_BYTES as u64 {
+            let file = OpenOptions::new().write(true).open(&last_filepath)?;
+            file.set_len(FILE_NUM_BYTES as u64)?;
+        }
+        Ok(())
     }
 
     /// Get the first still used FileNumber.
